@@ -81,4 +81,465 @@ theorem hasCycle_of_reachable (h : Heap) (v : Val) (hc : CycleReachable h v) : h
     | true => exact absurd hc (safe_no_cycle h _ r hs)
   | _ => cases hc
 
+/-! ## decoding is total -/
+
+/-- a decoder result that is either a value with a cursor that only moved forward inside the buffer, or one of the
+genuine error kinds (never `panic`, never `fuel`) -/
+def Good {α : Type} (s : Src) : Except DErr (α × Src) → Prop
+  | .ok (_, s') => Adv s s'
+  | .error e => e ≠ .panic ∧ e ≠ .fuel
+
+theorem readCount_good (s : Src) (w : s.wf) : Good s (readCount s) := by
+  obtain ⟨r, s', h, adv, _⟩ := nextVarUint_total s w
+  unfold readCount
+  rw [h]
+  simp only
+  split
+  · exact ⟨by decide, by decide⟩
+  · split
+    · exact ⟨by decide, by decide⟩
+    · exact adv
+
+theorem readVarBytes_good (s : Src) (w : s.wf) : Good s (readVarBytes s) := by
+  obtain ⟨⟨d, sz, irr, eof⟩, s', h, adv⟩ := nextVarBytes_total s w
+  unfold readVarBytes
+  rw [h]
+  simp only
+  split
+  · exact ⟨by decide, by decide⟩
+  · split
+    · exact ⟨by decide, by decide⟩
+    · exact adv
+
+theorem desList_good (rec : Src → Except DErr (Tree × Src)) (hrec : ∀ s, s.wf → Good s (rec s)) :
+    ∀ n s acc, s.wf → Good s (desList rec n s acc) := by
+  intro n
+  induction n with
+  | zero => intro s acc w; exact Adv.refl w
+  | succ n ih =>
+    intro s acc w
+    unfold desList
+    have h1 := hrec s w
+    cases hr : rec s with
+    | error e => rw [hr] at h1; exact h1
+    | ok p =>
+      obtain ⟨t, s'⟩ := p
+      rw [hr] at h1
+      simp only
+      split
+      · exact ⟨by decide, by decide⟩
+      · have h2 := ih s' (t :: acc) (Adv.wf h1 w)
+        cases hd : desList rec n s' (t :: acc) with
+        | error e => rw [hd] at h2; exact h2
+        | ok q => obtain ⟨ts, s''⟩ := q; rw [hd] at h2; exact Adv.trans h1 h2
+
+theorem desMap_good (rec : Src → Except DErr (Tree × Src)) (hrec : ∀ s, s.wf → Good s (rec s)) :
+    ∀ n s acc, s.wf → Good s (desMap rec n s acc) := by
+  intro n
+  induction n with
+  | zero => intro s acc w; exact Adv.refl w
+  | succ n ih =>
+    intro s acc w
+    unfold desMap
+    have h1 := hrec s w
+    cases hr : rec s with
+    | error e => rw [hr] at h1; exact h1
+    | ok p =>
+      obtain ⟨k, s1⟩ := p
+      rw [hr] at h1
+      simp only
+      have w1 := Adv.wf h1 w
+      have h2 := hrec s1 w1
+      cases hr2 : rec s1 with
+      | error e => rw [hr2] at h2; exact h2
+      | ok p2 =>
+        obtain ⟨v, s2⟩ := p2
+        rw [hr2] at h2
+        simp only
+        cases k.asBytes with
+        | none => exact ⟨by decide, by decide⟩
+        | some kb =>
+          simp only
+          have h3 := ih s2 (tmapSet kb k v acc) (Adv.wf h2 w1)
+          cases hd : desMap rec n s2 (tmapSet kb k v acc) with
+          | error e => rw [hd] at h3; exact h3
+          | ok q => obtain ⟨es, s3⟩ := q; rw [hd] at h3; exact Adv.trans h1 (Adv.trans h2 h3)
+
+
+theorem deser_good : ∀ f s depth, s.wf → f + depth ≥ MAX_COUNT + 2 → depth ≤ MAX_COUNT + 1 →
+    Good s (deser f s depth) := by
+  intro f
+  induction f with
+  | zero => intro s depth _ h1 h2; omega
+  | succ f ih =>
+    intro s depth w hf hd
+    unfold deser
+    split
+    · exact ⟨by decide, by decide⟩
+    · rename_i hdep
+      have hrec : ∀ s, s.wf → Good s (deser f s (depth + 1)) := fun s w => ih s (depth + 1) w (by omega) (by omega)
+      have a1 := nextByte_adv s w
+      generalize nextByte s = nb at a1
+      obtain ⟨⟨t, eof⟩, s1⟩ := nb
+      simp only at a1 ⊢
+      have w1 := Adv.wf a1 w
+      split
+      · exact ⟨by decide, by decide⟩
+      split
+      · -- bool
+        have a2 := nextBool_adv s1 w1
+        generalize nextBool s1 = nb2 at a2
+        obtain ⟨⟨b, irr, eof2⟩, s2⟩ := nb2
+        simp only at a2 ⊢
+        split
+        · exact ⟨by decide, by decide⟩
+        split
+        · exact ⟨by decide, by decide⟩
+        · exact Adv.trans a1 a2
+      split
+      · -- bytes
+        have h2 := readVarBytes_good s1 w1
+        cases hr : readVarBytes s1 with
+        | error e => rw [hr] at h2; exact h2
+        | ok p =>
+          obtain ⟨d, s2⟩ := p
+          rw [hr] at h2
+          simp only
+          split
+          · exact ⟨by decide, by decide⟩
+          · exact Adv.trans a1 h2
+      split
+      · -- int
+        have h2 := readVarBytes_good s1 w1
+        cases hr : readVarBytes s1 with
+        | error e => rw [hr] at h2; exact h2
+        | ok p =>
+          obtain ⟨d, s2⟩ := p
+          rw [hr] at h2
+          simp only
+          split
+          · exact ⟨by decide, by decide⟩
+          · exact Adv.trans a1 h2
+      split
+      ·
+        have h1 := readCount_good s1 w1
+        cases hr : readCount s1 with
+        | error e => rw [hr] at h1; exact h1
+        | ok p =>
+          obtain ⟨l, s2⟩ := p
+          rw [hr] at h1
+          simp only
+          have h2 := desList_good _ hrec (loopCount l) s2 [] (Adv.wf h1 w1)
+          generalize desList (fun s => deser f s (depth + 1)) (loopCount l) s2 [] = res at h2
+          cases res with
+          | error e => exact h2
+          | ok q => obtain ⟨ts, s3⟩ := q; exact Adv.trans a1 (Adv.trans h1 h2)
+      split
+      ·
+        have h1 := readCount_good s1 w1
+        cases hr : readCount s1 with
+        | error e => rw [hr] at h1; exact h1
+        | ok p =>
+          obtain ⟨l, s2⟩ := p
+          rw [hr] at h1
+          simp only
+          have h2 := desMap_good _ hrec (loopCount l) s2 [] (Adv.wf h1 w1)
+          generalize desMap (fun s => deser f s (depth + 1)) (loopCount l) s2 [] = res at h2
+          cases res with
+          | error e => exact h2
+          | ok q => obtain ⟨ts, s3⟩ := q; exact Adv.trans a1 (Adv.trans h1 h2)
+      split
+      ·
+        have h1 := readCount_good s1 w1
+        cases hr : readCount s1 with
+        | error e => rw [hr] at h1; exact h1
+        | ok p =>
+          obtain ⟨l, s2⟩ := p
+          rw [hr] at h1
+          simp only
+          have h2 := desList_good _ hrec (loopCount l) s2 [] (Adv.wf h1 w1)
+          generalize desList (fun s => deser f s (depth + 1)) (loopCount l) s2 [] = res at h2
+          cases res with
+          | error e => exact h2
+          | ok q => obtain ⟨ts, s3⟩ := q; exact Adv.trans a1 (Adv.trans h1 h2)
+      · exact ⟨by decide, by decide⟩
+
+theorem deserialize_good (bs : Bytes) (hlen : bs.length < two64) : Good ⟨bs, 0⟩ (deserialize bs) :=
+  deser_good _ _ _ ⟨Nat.zero_le _, hlen⟩ (by decide) (by decide)
+
+/-! ## what the shipped detector does catch: cycles along the first-element chain -/
+
+/-- the child the shipped detector certainly follows from object `r`: element 0 of an array/struct, the value of the only
+entry of a one-entry map (every iteration order of a one-entry map starts with that entry) -/
+def firstStep (h : Heap) (r : Ref) : Option Val :=
+  match h[r]? with
+  | some (.arr (v :: _)) => some v
+  | some (.struct (v :: _)) => some v
+  | some (.map [e]) => some e.val
+  | _ => none
+
+/-- follow the first-element chain `n` times through containers -/
+def firstIter (h : Heap) : Nat → Ref → Option Ref
+  | 0, r => some r
+  | n+1, r =>
+    match firstStep h r with
+    | some (.ref s) => firstIter h n s
+    | _ => none
+
+/-- the first-element chain from `r` never reaches a leaf or an empty container -/
+def NeverEnds (h : Heap) (r : Ref) : Prop := ∀ n, (firstIter h n r).isSome = true
+
+/-- the first-element chain from `r` returns to `r` -/
+def FirstCycle (h : Heap) (r : Ref) : Prop := ∃ n, 0 < n ∧ firstIter h n r = some r
+
+theorem firstIter_add (h : Heap) (a b : Nat) (r : Ref) :
+    firstIter h (a + b) r = (firstIter h a r).bind (firstIter h b) := by
+  induction a generalizing r with
+  | zero => simp [firstIter]
+  | succ a ih =>
+    rw [Nat.succ_add]
+    simp only [firstIter]
+    cases firstStep h r with
+    | none => rfl
+    | some v => cases v <;> simp [ih]
+
+theorem neverEnds_of_firstCycle {h : Heap} {r : Ref} (hc : FirstCycle h r) : NeverEnds h r := by
+  obtain ⟨n, hn, hr⟩ := hc
+  intro m
+  induction m using Nat.strongRecOn with
+  | _ m ih =>
+    by_cases hm : m ≤ n
+    · have e : n = m + (n - m) := by omega
+      rw [e, firstIter_add] at hr
+      cases hx : firstIter h m r with
+      | none => rw [hx] at hr; cases hr
+      | some _ => rfl
+    · have e : m = n + (m - n) := by omega
+      rw [e, firstIter_add, hr]
+      exact ih (m - n) (by omega)
+
+theorem neverEnds_step {h : Heap} {r : Ref} (hn : NeverEnds h r) :
+    ∃ s, firstStep h r = some (.ref s) ∧ NeverEnds h s := by
+  have h1 := hn 1
+  simp only [firstIter] at h1
+  cases hs : firstStep h r with
+  | none => rw [hs] at h1; cases h1
+  | some v =>
+    cases v with
+    | ref s =>
+      refine ⟨s, rfl, fun n => ?_⟩
+      have := hn (n + 1)
+      simpa [firstIter, hs] using this
+    | _ => rw [hs] at h1; cases h1
+
+theorem detShipped_of_neverEnds (perm : Perm) (hv : perm.valid) (path : List Nat) (h : Heap) :
+    ∀ k r vis, NeverEnds h r → detShipped perm path h k vis (.ref r) = true := by
+  intro k
+  induction k with
+  | zero => intro r vis _; rfl
+  | succ k ih =>
+    intro r vis hn
+    obtain ⟨s, hs, hns⟩ := neverEnds_step hn
+    unfold firstStep at hs
+    unfold detShipped
+    cases ho : h[r]? with
+    | none => rw [ho] at hs; cases hs
+    | some o =>
+      rw [ho] at hs
+      cases o with
+      | arr vs =>
+        cases vs with
+        | nil => cases hs
+        | cons v vs =>
+          simp only at hs
+          cases hs
+          simp only
+          split
+          · rfl
+          · exact ih s _ hns
+      | struct vs =>
+        cases vs with
+        | nil => cases hs
+        | cons v vs =>
+          simp only at hs
+          cases hs
+          simp only
+          split
+          · rfl
+          · exact ih s _ hns
+      | map es =>
+        match es, hs with
+        | [e], hs =>
+          simp only at hs
+          have hp : perm path r [e] = [e] := List.perm_singleton.mp (hv path r [e])
+          simp only [hp]
+          have hev : e.val = Val.ref s := Option.some.inj hs
+          split
+          · rfl
+          · rw [hev]
+            exact ih s _ hns
+
+/-! ## `BigIntToNeoBytes` / `BigIntFromNeoBytes` round trip -/
+
+theorem toNeoAux_ne_nil (f : Nat) (z : Int) : toNeoAux (f + 1) z ≠ [] := by
+  unfold toNeoAux
+  simp only
+  split <;> simp
+
+theorem ofNat_emod_toNat (z : Int) : ((UInt8.ofNat (z % 256).toNat).toNat : Int) = z % 256 := by
+  have h1 : 0 ≤ z % 256 := Int.emod_nonneg z (by decide)
+  have h2 : z % 256 < 256 := Int.emod_lt_of_pos z (by decide)
+  have : (z % 256).toNat < 256 := by omega
+  rw [toNat_ofNat_lt _ this]
+  omega
+
+theorem fromNeo_cons (b : UInt8) (r : Bytes) (hr : r ≠ []) : fromNeo (b :: r) = (b.toNat : Int) + 256 * fromNeo r := by
+  cases r with
+  | nil => exact absurd rfl hr
+  | cons c t => rfl
+
+theorem fromNeo_toNeoAux : ∀ f z, z.natAbs ≤ f → 1 ≤ f → fromNeo (toNeoAux f z) = z := by
+  intro f
+  induction f with
+  | zero => intro z _ hz; omega
+  | succ f ih =>
+    intro z hf hz
+    unfold toNeoAux
+    simp only
+    have hb := ofNat_emod_toNat z
+    split
+    · rename_i hr
+      show (if (UInt8.ofNat (z % 256).toNat).toNat < 128 then _ else _) = z
+      have hb' : ((UInt8.ofNat (z % 256).toNat).toNat : Int) = z % 256 := hb
+      split
+      · rename_i hlt; omega
+      · rename_i hge; omega
+    · rename_i hr
+      have hz' : 1 ≤ f := by omega
+      have hzf : -((f : Int) + 1) ≤ z ∧ z ≤ (f : Int) + 1 := by omega
+      have hq : -(f : Int) ≤ z / 256 ∧ z / 256 ≤ (f : Int) := by omega
+      have hf' : (z / 256).natAbs ≤ f := by omega
+      have hne : toNeoAux f (z / 256) ≠ [] := by
+        cases f with
+        | zero => omega
+        | succ f => exact toNeoAux_ne_nil f _
+      rw [fromNeo_cons _ _ hne, ih _ hf' hz', hb]
+      omega
+
+theorem fromNeo_toNeo (z : Int) : fromNeo (toNeo z) = z := by
+  unfold toNeo
+  split
+  · rename_i h; subst h; rfl
+  · rename_i h; exact fromNeo_toNeoAux _ z (Nat.le_refl _) (by omega)
+
+/-! ## key order, sorted maps, independence of the iteration order -/
+
+theorem ble_total : ∀ a b : Bytes, ble a b = true ∨ ble b a = true
+  | [], _ => .inl rfl
+  | _ :: _, [] => .inr rfl
+  | a :: as, b :: bs => by
+    simp only [ble, Bool.or_eq_true, decide_eq_true_eq, Bool.and_eq_true, beq_iff_eq]
+    rcases ble_total as bs with h | h
+    · by_cases h1 : a.toNat < b.toNat
+      · exact .inl (.inl h1)
+      · by_cases h2 : b.toNat < a.toNat
+        · exact .inr (.inl h2)
+        · exact .inl (.inr ⟨by omega, h⟩)
+    · by_cases h1 : a.toNat < b.toNat
+      · exact .inl (.inl h1)
+      · by_cases h2 : b.toNat < a.toNat
+        · exact .inr (.inl h2)
+        · exact .inr (.inr ⟨by omega, h⟩)
+
+theorem ble_antisymm : ∀ a b : Bytes, ble a b = true → ble b a = true → a = b
+  | [], [], _, _ => rfl
+  | [], _ :: _, _, h => by simp [ble] at h
+  | _ :: _, [], h, _ => by simp [ble] at h
+  | a :: as, b :: bs, h1, h2 => by
+    simp only [ble, Bool.or_eq_true, decide_eq_true_eq, Bool.and_eq_true, beq_iff_eq] at h1 h2
+    have hab : a.toNat = b.toNat := by
+      rcases h1 with h1 | h1 <;> rcases h2 with h2 | h2 <;> omega
+    have h1' : ble as bs = true := by rcases h1 with h1 | h1; omega; exact h1.2
+    have h2' : ble bs as = true := by rcases h2 with h2 | h2; omega; exact h2.2
+    rw [UInt8.toNat_inj.mp hab, ble_antisymm as bs h1' h2']
+
+theorem ble_trans : ∀ a b c : Bytes, ble a b = true → ble b c = true → ble a c = true
+  | [], _, _, _, _ => rfl
+  | _ :: _, [], _, h, _ => by simp [ble] at h
+  | _ :: _, _ :: _, [], _, h => by simp [ble] at h
+  | a :: as, b :: bs, c :: cs, h1, h2 => by
+    simp only [ble, Bool.or_eq_true, decide_eq_true_eq, Bool.and_eq_true, beq_iff_eq] at h1 h2 ⊢
+    rcases h1 with h1 | ⟨h1, h1'⟩ <;> rcases h2 with h2 | ⟨h2, h2'⟩
+    · exact .inl (by omega)
+    · exact .inl (by omega)
+    · exact .inl (by omega)
+    · exact .inr ⟨by omega, ble_trans as bs cs h1' h2'⟩
+
+def kle (a b : Entry) : Prop := ble a.key b.key = true
+
+/-- a Go map in the model: entries sorted by key string, keys pairwise different -/
+def SortedK (es : List Entry) : Prop := es.Pairwise fun a b => ble a.key b.key = true ∧ a.key ≠ b.key
+
+theorem insertE_perm (e : Entry) : ∀ l, (insertE e l).Perm (e :: l)
+  | [] => List.Perm.refl _
+  | x :: xs => by
+    unfold insertE
+    split
+    · exact List.Perm.refl _
+    · exact ((insertE_perm e xs).cons x).trans (List.Perm.swap e x xs)
+
+theorem sortE_perm : ∀ l, (sortE l).Perm l
+  | [] => List.Perm.refl _
+  | e :: es => (insertE_perm e (sortE es)).trans ((sortE_perm es).cons e)
+
+theorem insertE_sorted (e : Entry) : ∀ l, l.Pairwise kle → (insertE e l).Pairwise kle
+  | [], _ => List.pairwise_singleton _ _
+  | x :: xs, h => by
+    unfold insertE
+    split
+    · rename_i hle
+      refine List.Pairwise.cons ?_ h
+      intro y hy
+      rcases List.mem_cons.mp hy with rfl | hy
+      · exact hle
+      · exact ble_trans _ _ _ hle ((List.pairwise_cons.mp h).1 y hy)
+    · rename_i hle
+      have hxe : kle x e := by
+        rcases ble_total e.key x.key with h' | h'
+        · exact absurd h' hle
+        · exact h'
+      refine List.Pairwise.cons ?_ (insertE_sorted e xs (List.pairwise_cons.mp h).2)
+      intro y hy
+      rcases List.mem_cons.mp ((insertE_perm e xs).subset hy) with rfl | hy
+      · exact hxe
+      · exact (List.pairwise_cons.mp h).1 y hy
+
+theorem sortE_sorted : ∀ l, (sortE l).Pairwise kle
+  | [] => List.Pairwise.nil
+  | e :: es => insertE_sorted e _ (sortE_sorted es)
+
+theorem SortedK.eq_of_key {es : List Entry} (hs : SortedK es) {a b : Entry} (ha : a ∈ es) (hb : b ∈ es)
+    (hk : a.key = b.key) : a = b := by
+  induction es with
+  | nil => cases ha
+  | cons x xs ih =>
+    obtain ⟨hx, hxs⟩ := List.pairwise_cons.mp hs
+    rcases List.mem_cons.mp ha with ha' | ha' <;> rcases List.mem_cons.mp hb with hb' | hb'
+    · rw [ha', hb']
+    · subst ha'; exact absurd hk (hx b hb').2
+    · subst hb'; exact absurd hk.symm (hx a ha').2
+    · exact ih hxs ha' hb'
+
+/-- **Sorting removes the iteration order**: whatever order the entries of a map are visited in, sorting the visited
+sequence gives the map's canonical entry list. -/
+theorem sortE_of_perm {l es : List Entry} (hp : l.Perm es) (hs : SortedK es) : sortE l = es := by
+  have p : (sortE l).Perm es := (sortE_perm l).trans hp
+  refine List.Perm.eq_of_pairwise (le := kle) ?_ (sortE_sorted l) (hs.imp fun h => h.1) p
+  intro a b ha hb hab hba
+  exact hs.eq_of_key (p.subset ha) hb (ble_antisymm _ _ hab hba)
+
+theorem sortedEntries_eq (perm : Perm) (hv : perm.valid) (path : List Nat) (r : Ref) {es : List Entry}
+    (hs : SortedK es) : sortedEntries perm path r es = es :=
+  sortE_of_perm (hv path r es) hs
+
 end OntVerif.Proofs.NeoVal
